@@ -1,0 +1,13 @@
+//go:build verif
+
+// Contracts for package notary, checked by /verif/govc (comment-only; not part of any normal build).
+
+package notary
+
+//@ func (Config).hasContractValidator
+//@   pure
+
+//@ func (*notary).Configure
+//@   prop C20
+//@   call mapupdate #* requires (arg(1) == dummy.ContractFormat || arg(1) == dummy.VerifiablePresentationType) ==> !n.config.StrictMode
+//@   call irma.NewSignerAndVerifier #1 requires arg(0).Production == n.config.StrictMode
